@@ -2,8 +2,11 @@ package main
 
 import (
 	"bytes"
+	"crypto/x509"
+	"encoding/hex"
 	"fmt"
 	"reflect"
+	"strings"
 
 	"github.com/fido-device-onboard/go-fdo/cbor"
 
@@ -11,25 +14,61 @@ import (
 	"verif/harness/internal/rep"
 )
 
-// decodeTypedImpl decodes one item from a stream into a fresh value of the wire type.
-func decodeTypedImpl(wt wireType, b []byte) (ok bool, consumed int, panicked any) {
+// decodeTypedImpl decodes one item from a stream into a fresh value of the wire type and
+// re-encodes what was decoded.
+func decodeTypedImpl(wt wireType, b []byte) (ok bool, consumed int, reenc string, panicked any) {
 	defer func() {
 		if p := recover(); p != nil {
 			panicked = p
 		}
 	}()
 	rd := bytes.NewReader(b)
-	if err := cbor.NewDecoder(rd).Decode(wt.mk()); err != nil {
-		return false, 0, nil
+	v := wt.Mk()
+	if err := cbor.NewDecoder(rd).Decode(v); err != nil {
+		return false, 0, "", nil
 	}
-	return true, len(b) - rd.Len(), nil
+	consumed = len(b) - rd.Len()
+	if re, err := cbor.Marshal(v); err != nil {
+		reenc = "marshal-err"
+	} else {
+		reenc = gen.Hex(re)
+	}
+	return true, consumed, reenc, nil
+}
+
+// typedModelled says whether the Lean typed model covers a wire type.
+func typedModelled(name string) bool { return name != "blob.DeviceCredential" }
+
+// typedNorm resolves the X.509 oracle queries in a `cbor.typed` reply: the model accepts every
+// DER string as a certificate and lists them; the real decoder fails iff one does not parse.
+func typedNorm(out string) string {
+	f := strings.Fields(out)
+	if len(f) != 4 || f[0] != "ok" {
+		return out
+	}
+	if f[3] != "-" {
+		for _, h := range strings.Split(f[3], ",") {
+			if h == "e" {
+				return "err"
+			}
+			der, err := hex.DecodeString(h)
+			if err != nil {
+				return "bad-cert-field"
+			}
+			if _, err := x509.ParseCertificate(der); err != nil {
+				return "err"
+			}
+		}
+	}
+	return strings.Join(f[:3], " ")
 }
 
 func c12TypedInput(x *runCtx, wt wireType, b []byte, class string, measureAlloc bool) {
 	var ok bool
 	var consumed int
 	var pan any
-	work := func() { ok, consumed, pan = decodeTypedImpl(wt, b) }
+	var reenc string
+	work := func() { ok, consumed, reenc, pan = decodeTypedImpl(wt, b) }
 	var alloc uint64
 	if measureAlloc {
 		alloc = measure(work)
@@ -37,18 +76,26 @@ func c12TypedInput(x *runCtx, wt wireType, b []byte, class string, measureAlloc 
 		work()
 	}
 	h := gen.Hex(b)
-	x.r.Case(wt.name+":"+h, ok, "typed-"+class)
+	x.r.Case(wt.Name+":"+h, ok, "typed-"+class)
 	if ok {
-		x.r.Distribution["typed-accepted:"+wt.name]++
+		x.r.Distribution["typed-accepted:"+wt.Name]++
 	}
 	if pan != nil {
-		x.r.Violate(rep.Violation{Kind: "panic", Check: "C12.no-panic", Signature: "C12.panic:" + wt.name, Input: wt.name + " " + h,
+		x.r.Violate(rep.Violation{Kind: "panic", Check: "C12.no-panic", Signature: "C12.panic:" + wt.Name, Input: wt.Name + " " + h,
 			Impl: fmt.Sprint(pan), PropertyFails: true})
 		return
 	}
 	if measureAlloc && alloc > allocBound(len(b)) {
-		x.r.Violate(rep.Violation{Kind: "oracle", Check: "C12.alloc-bound", Signature: "C12.alloc:" + wt.name, Input: wt.name + " " + trunc(h, 400),
+		x.r.Violate(rep.Violation{Kind: "oracle", Check: "C12.alloc-bound", Signature: "C12.alloc:" + wt.Name, Input: wt.Name + " " + trunc(h, 400),
 			Impl: fmt.Sprintf("allocated %d bytes decoding %d input bytes (bound %d)", alloc, len(b), allocBound(len(b))), PropertyFails: true})
+	}
+	if typedModelled(wt.Name) && len(b) <= 4096 {
+		impl := "err"
+		if ok {
+			impl = fmt.Sprintf("ok %d %s", consumed, reenc)
+		}
+		x.c.add(pending{check: "C12.decode-typed:" + wt.Name, line: "cbor.typed " + wt.Name + " " + h, impl: impl,
+			input: wt.Name + " " + h, norm: typedNorm})
 	}
 	if !ok {
 		return
@@ -57,18 +104,18 @@ func c12TypedInput(x *runCtx, wt wireType, b []byte, class string, measureAlloc 
 	// which is tied to the Lean model, agrees on where the item ends), and it re-decodes alone
 	_, rawConsumed, rawOK, _ := decodeRawImpl(b)
 	if !rawOK || rawConsumed != consumed {
-		x.r.Violate(rep.Violation{Kind: "oracle", Check: "C12.exact-consumption", Signature: "C12.exact-typed:" + wt.name, Input: wt.name + " " + h,
+		x.r.Violate(rep.Violation{Kind: "oracle", Check: "C12.exact-consumption", Signature: "C12.exact-typed:" + wt.Name, Input: wt.Name + " " + h,
 			Impl: fmt.Sprintf("typed decode consumed %d bytes; the item there is %d bytes long (well-formed=%v)", consumed, rawConsumed, rawOK), PropertyFails: true})
 		return
 	}
-	ok2, c2, _ := decodeTypedImpl(wt, b[:consumed])
+	ok2, c2, _, _ := decodeTypedImpl(wt, b[:consumed])
 	if !ok2 || c2 != consumed {
-		x.r.Violate(rep.Violation{Kind: "oracle", Check: "C12.exact-consumption", Signature: "C12.exact-typed-prefix:" + wt.name, Input: wt.name + " " + h,
+		x.r.Violate(rep.Violation{Kind: "oracle", Check: "C12.exact-consumption", Signature: "C12.exact-typed-prefix:" + wt.Name, Input: wt.Name + " " + h,
 			Impl: fmt.Sprintf("consumed prefix alone: ok=%v consumed=%d", ok2, c2), PropertyFails: true})
 	}
-	err := cbor.Unmarshal(b, wt.mk())
+	err := cbor.Unmarshal(b, wt.Mk())
 	if (err == nil) != (consumed == len(b)) {
-		x.r.Violate(rep.Violation{Kind: "oracle", Check: "C12.no-trailing", Signature: "C12.trailing-typed:" + wt.name, Input: wt.name + " " + h,
+		x.r.Violate(rep.Violation{Kind: "oracle", Check: "C12.no-trailing", Signature: "C12.trailing-typed:" + wt.Name, Input: wt.Name + " " + h,
 			Impl: fmt.Sprintf("Unmarshal err=%v, stream decode consumed %d of %d", err, consumed, len(b)), PropertyFails: true})
 	}
 }
@@ -79,7 +126,7 @@ func c12Typed(x *runCtx) {
 	// exhaustive short strings against every target
 	maxLen := 2
 	for _, wt := range wireTypes {
-		if wt.name == "any" || wt.name == "RawBytes" {
+		if wt.Name == "any" || wt.Name == "RawBytes" {
 			continue
 		}
 		for l := 0; l <= maxLen; l++ {
@@ -105,11 +152,11 @@ func c12Typed(x *runCtx) {
 	}
 	adv := adversarial(x.thorough())
 	for _, wt := range wireTypes {
-		if wt.name == "any" || wt.name == "RawBytes" {
+		if wt.Name == "any" || wt.Name == "RawBytes" {
 			continue
 		}
 		for i := 0; i < per; i++ {
-			v := wt.mk()
+			v := wt.Mk()
 			f.fill(reflect.ValueOf(v).Elem(), 0)
 			b, err := cbor.Marshal(v)
 			if err != nil {
